@@ -25,10 +25,11 @@ type Store = store.Store[*vh.Header]
 
 // Cfg is a store configuration.
 type Cfg struct {
-	SC      int    `json:"sc"`      // StoreCacheSize
-	IC      int    `json:"ic"`      // IndexCacheSize
-	WB      int    `json:"wb"`      // WriteBatchSize
-	Flavour string `json:"flavour"` // plain | ctx
+	SC      int    `json:"sc"`                // StoreCacheSize
+	IC      int    `json:"ic"`                // IndexCacheSize
+	WB      int    `json:"wb"`                // WriteBatchSize
+	Flavour string `json:"flavour"`           // plain | ctx
+	Metrics bool   `json:"metrics,omitempty"` // store.WithMetrics()
 }
 
 func (c Cfg) String() string { return fmt.Sprintf("sc%d-ic%d-wb%d-%s", c.SC, c.IC, c.WB, c.Flavour) }
@@ -42,8 +43,11 @@ func wrap(d *memds.DS, flavour string) ds.Batching {
 }
 
 func openStore(d *memds.DS, cfg Cfg) (*Store, error) {
-	return store.NewStore[*vh.Header](wrap(d, cfg.Flavour),
-		store.WithStoreCacheSize(cfg.SC), store.WithIndexCacheSize(cfg.IC), store.WithWriteBatchSize(cfg.WB))
+	opts := []store.Option{store.WithStoreCacheSize(cfg.SC), store.WithIndexCacheSize(cfg.IC), store.WithWriteBatchSize(cfg.WB)}
+	if cfg.Metrics {
+		opts = append(opts, store.WithMetrics())
+	}
+	return store.NewStore[*vh.Header](wrap(d, cfg.Flavour), opts...)
 }
 
 // env is one store under test plus its reference model.
